@@ -161,6 +161,11 @@ def run(tier: str, seed: int) -> int:
                 forbidden = {"float32", "complex64", "float16", "bfloat16"} if x64 else {"float64", "complex128"}
                 if forbidden & set(inter):
                     run_.violation({"kind": "intermediate-dtype", "session": sess, "cls": rec["name"], "order": rec["order"]}, {"dtypes": inter})
+            leaves = set(rec.get("leaf_dtypes") or [])
+            bad_leaves = leaves & ({"float32", "complex64"} if x64 else {"float64", "complex128"})
+            if bad_leaves:
+                run_.violation({"kind": "operator-dtype", "session": sess, "cls": rec["name"], "order": rec["order"],
+                                "what": "arrays carried by the stepper are not of the session's precision"}, {"leaf_dtypes": sorted(leaves)})
             if "semigroup_rel" in rec:
                 run_.evaluations += 1
                 if not rec["semigroup_rel"] <= 2000 * o["eps"]:
